@@ -2,7 +2,8 @@
 use super::index::{gen_crystal_angle, gen_lambda, gen_temp, pol_tok, setup, CRYSTALS};
 use crate::common::*;
 use nalgebra::Vector3;
-use spdcalc::beam::{direction_from_polar, Beam, BeamWaist, PumpBeam};
+use spdcalc::beam::{direction_from_polar, Beam, BeamWaist, IdlerBeam, PumpBeam, SignalBeam};
+use spdcalc::{AutoCalcParam, CrystalConfig, IdlerConfig, PumpConfig, SignalConfig};
 use spdcalc::crystal::CrystalSetup;
 use spdcalc::dim::ucum::{K, M, RAD, S};
 use spdcalc::math::{fwhm_to_sigma, fwhm_to_waist, normalize_angle, normalize_angle_signed, waist_to_fwhm};
@@ -11,6 +12,9 @@ use spdcalc::utils::*;
 use std::f64::consts::{FRAC_PI_2, PI, TAU};
 
 const DEG: f64 = PI / 180.0;
+thread_local! {
+  static WAIST: std::cell::Cell<Option<(f64, f64, f64)>> = std::cell::Cell::new(None);
+}
 /// the statement's read-back tolerance 1e-5°
 const READBACK_TOL_DEG: f64 = 1e-5;
 
@@ -87,6 +91,26 @@ fn check_invariant(ctx: &mut Ctx, b: &Beam, req_phi: f64, req_theta: f64, hist: 
     "C13.invariant",
     (d - e).amax() <= 8.0 * f64::EPSILON && (d.norm() - 1.0).abs() <= 8.0 * f64::EPSILON,
     "beam/invariant/direction",
+    &det,
+  );
+  // ω = 2πc/λ through the getters (a cached wavelength must follow every frequency mutation)
+  let om = *(b.frequency() / (RAD / S));
+  if om.is_finite() && om.abs() > 1e-290 && om.abs() < 1e290 {
+    let lam = *(b.vacuum_wavelength() / M);
+    let two_pi_c = TAU * 299_792_458.0;
+    ctx.s(
+      "C13.invariant",
+      (om * lam - two_pi_c).abs() <= 4.0 * f64::EPSILON * two_pi_c,
+      "beam/invariant/frequency-wavelength",
+      &format!("{} omega={:e} vacuum_wavelength={:e}", det, om, lam),
+    );
+  }
+  // history independence: the cached direction equals the crate's own function of the stored angles, bit for bit
+  let dd = direction_from_polar(b.phi(), b.theta_internal()).into_inner();
+  ctx.s(
+    "C13.history_independent",
+    dd.x.to_bits() == d.x.to_bits() && dd.y.to_bits() == d.y.to_bits() && dd.z.to_bits() == d.z.to_bits(),
+    "beam/history-dependent/direction",
     &det,
   );
   if let Some(ok) = congruent(phi, req_phi) {
@@ -219,6 +243,29 @@ fn history(ctx: &mut Ctx, maxlen: usize, wild: bool) {
     }
   }
   ctx.k("beam_seq", &args, &outs.join(" | "));
+  // history independence of derived quantities: a fresh beam in the same state gives bit-identical results
+  let phi = *(beam.phi() / RAD);
+  let om = *(beam.frequency() / (RAD / S));
+  if !wild && phi < TAU && om.is_finite() && om > 0.0 {
+    let r = guard(|| {
+      let mut fresh = Beam::new(beam.polarization(), beam.phi(), 0.0 * RAD, 1e-6 * M, beam.waist());
+      fresh.set_frequency(beam.frequency());
+      let a = *(beam.theta_external(&cs) / RAD);
+      let b = *(Beam::calc_external_theta_from_internal(&fresh, beam.theta_internal(), &cs) / RAD);
+      let n1 = *beam.refractive_index(beam.frequency(), &cs);
+      let n2 = *cs.index_along(fresh.vacuum_wavelength(), beam.direction(), beam.polarization());
+      (a, b, n1, n2)
+    });
+    if let Some((a, b, n1, n2)) = r {
+      let same = |x: f64, y: f64| x.to_bits() == y.to_bits() || (x.is_nan() && y.is_nan());
+      ctx.s(
+        "C13.history_independent",
+        same(a, b) && same(n1, n2),
+        "beam/history-dependent/derived",
+        &format!("crystal={} ctheta={:e} cphi={:e} T={} history={} theta_external={:e} fresh={:e} index={} fresh_index={}", c, cth, cph, t_c, hist, a, b, n1, n2),
+      );
+    }
+  }
 }
 
 /// `sang x… x…` → `sang(1.5e0,-3e-1)` (decimal, for replaying a history by hand)
@@ -519,7 +566,7 @@ pub fn run(ctx: &mut Ctx) {
           let d = beam.direction().into_inner();
           ctx.k("wavevector", &format!("{} {} {} {} {}", fl(d.x), fl(d.y), fl(d.z), fl(om), fl(nb)), &fls(&[kv.x, kv.y, kv.z]));
           // optimal waist position
-          let len = ctx.rng.log_range(1e-4, 5e-2);
+          let len = if ctx.rng.below(3) == 0 { ctx.rng.log_range(1e-30, 1e30) } else { ctx.rng.log_range(1e-4, 5e-2) };
           let mut cs2 = cs.clone();
           cs2.length = len * M;
           let n2 = *cs2.crystal.get_indices(lam * M, cs2.temperature);
@@ -536,6 +583,175 @@ pub fn run(ctx: &mut Ctx) {
             "waist-position",
             &format!("crystal={} ctheta={:e} cphi={:e} lambda={:e} L={:e} pol={} z={:e} n_z={}", c, ctheta, cphi, lam, len, pol_tok(*pol), z, nz),
           );
+        }
+      }
+    }
+  }
+
+  // ---------------------------------------------------------------- every API route to set_theta_external
+  for (ci, c) in CRYSTALS.iter().enumerate() {
+    for pol in both.iter() {
+      for j in 0..(if ctx.thorough { 12 } else { 2 }) {
+        let (ctheta, cphi) = (gen_crystal_angle(&mut ctx.rng), gen_crystal_angle(&mut ctx.rng));
+        let t_c = gen_temp(&mut ctx.rng);
+        let mut cs = setup(c, ctheta, cphi, t_c);
+        cs.pm_type = if *pol == PolarizationType::Ordinary { PMType::Type2_e_oe } else { PMType::Type2_e_eo };
+        let (lo, hi) = super::index::window(c);
+        // pump λp, signal 2λp (degenerate), both inside the window
+        let lp = ctx.rng.range(lo.max(hi / 4.0), hi / 2.0);
+        let ls = 2.0 * lp;
+        let ext_deg = if j == 0 { 80.0 } else { ctx.rng.range(0.0, 80.0) };
+        let bphi_deg = *ctx.rng.pick(&[0.0, 90.0, 180.0, 270.0, 37.0, 359.0]);
+        for route in 0..6usize {
+          let det0 = format!(
+            "crystal={} ctheta={:e} cphi={:e} T={} lambda={:e} pol={} bphi_deg={} ext_deg={:e} route={}",
+            c, ctheta, cphi, t_c, ls, pol_tok(*pol), bphi_deg, ext_deg,
+            ["signal-wrapper", "idler-wrapper", "pump-wrapper", "signal-config", "idler-config", "spdc-config"][route]
+          );
+          ctx.count(&format!("snell/route={}", route));
+          let fresh = || Beam::new(*pol, bphi_deg * DEG * RAD, 0.0 * RAD, ls * M, 100e-6 * M);
+          let made: Option<(Beam, CrystalSetup)> = guard(|| match route {
+            0 => {
+              let mut b = SignalBeam::new(fresh());
+              b.set_theta_external(ext_deg * DEG * RAD, &cs);
+              Some((b.as_beam(), cs.clone()))
+            }
+            1 => {
+              let mut b = IdlerBeam::new(fresh());
+              b.set_theta_external(ext_deg * DEG * RAD, &cs);
+              Some((b.as_beam(), cs.clone()))
+            }
+            2 => {
+              let mut b = PumpBeam::new(fresh());
+              b.set_theta_external(ext_deg * DEG * RAD, &cs);
+              Some((b.as_beam(), cs.clone()))
+            }
+            3 => {
+              let cfg = SignalConfig { wavelength_nm: ls * 1e9, phi_deg: bphi_deg, theta_deg: None, theta_external_deg: Some(ext_deg), waist_um: 100.0, waist_position_um: AutoCalcParam::default() };
+              cfg.try_as_beam(&cs).ok().map(|b| (b.as_beam(), cs.clone()))
+            }
+            4 => {
+              // the idler of e->oe is extraordinary, of e->eo ordinary
+              let mut cs_i = cs.clone();
+              cs_i.pm_type = if *pol == PolarizationType::Ordinary { PMType::Type2_e_eo } else { PMType::Type2_e_oe };
+              let cfg = IdlerConfig { wavelength_nm: ls * 1e9, phi_deg: bphi_deg, theta_deg: None, theta_external_deg: Some(ext_deg), waist_um: 100.0, waist_position_um: AutoCalcParam::default() };
+              cfg.try_as_beam(&cs_i).ok().map(|b| (b.as_beam(), cs_i))
+            }
+            _ => {
+              let cfg = SPDCConfig {
+                crystal: CrystalConfig {
+                  kind: c.clone(),
+                  pm_type: cs.pm_type,
+                  phi_deg: cphi / DEG,
+                  theta_deg: AutoCalcParam::Param(ctheta / DEG),
+                  length_um: 2000.0,
+                  temperature_c: t_c,
+                  counter_propagation: false,
+                },
+                pump: PumpConfig { wavelength_nm: lp * 1e9, waist_um: 100.0, bandwidth_nm: 5.0, average_power_mw: 1.0, spectrum_threshold: None },
+                signal: SignalConfig { wavelength_nm: ls * 1e9, phi_deg: bphi_deg, theta_deg: None, theta_external_deg: Some(ext_deg), waist_um: 100.0, waist_position_um: AutoCalcParam::default() },
+                ..SPDCConfig::default()
+              };
+              cfg.try_as_spdc().ok().map(|spdc| {
+                // the automatic waist position of the statement, through the config route
+                let nz = *spdc.crystal_setup.index_along(spdc.signal.vacuum_wavelength(), nalgebra::Unit::new_normalize(Vector3::z()), spdc.signal.polarization());
+                let z = *(spdc.signal_waist_position / M);
+                let len = *(spdc.crystal_setup.length / M);
+                (spdc.signal.clone().as_beam(), spdc.crystal_setup.clone(), z, len, nz)
+              }).map(|(b, cs2, z, len, nz)| {
+                WAIST.with(|w| w.set(Some((z, len, nz))));
+                (b, cs2)
+              })
+            }
+          })
+          .flatten();
+          match made {
+            None => ctx.s("C13.readback", false, "snell/route-failed", &det0),
+            Some((b, cs_used)) => {
+              // the route must have produced the requested polarisation, then the statement's clauses
+              if b.polarization() == *pol {
+                readback_checks(ctx, &b, &cs_used, ext_deg * DEG, &det0);
+              }
+              if route == 5 {
+                if let Some((z, len, nz)) = WAIST.with(|w| w.take()) {
+                  ctx.s("C13.waist_position", (z - (-len / (2.0 * nz))).abs() <= 4.0 * f64::EPSILON * z.abs(), "waist-position/config", &format!("{} z={:e} L={:e} n_z={}", det0, z, len, nz));
+                }
+              }
+            }
+          }
+        }
+        let _ = ci;
+      }
+    }
+  }
+
+  // ---------------------------------------------------------------- ONE beam and ONE setup, one parameter changed per step
+  {
+    let steps = if ctx.thorough { 30 } else { 5 };
+    let mut c = CRYSTALS[0].clone();
+    let (mut ctheta, mut cphi, mut t_c) = (0.5, 0.2, 20.0);
+    let mut cs = setup(&c, ctheta, cphi, t_c);
+    let mut ext_deg = 20.0;
+    let mut beam = Beam::new(PolarizationType::Extraordinary, 0.3 * RAD, 0.0 * RAD, 1200e-9 * M, 100e-6 * M);
+    for kind in 0..8usize {
+      for _ in 0..steps {
+        match kind {
+          0 => {
+            c = ctx.rng.pick(&CRYSTALS).clone();
+            cs.crystal = c.clone();
+          }
+          1 => {
+            t_c = gen_temp(&mut ctx.rng);
+            cs.temperature = from_celsius_to_kelvin(t_c);
+          }
+          2 => {
+            beam.set_vacuum_wavelength(ctx.rng.range(1000e-9, 1500e-9) * M); // inside every window
+          }
+          3 => {
+            ctheta = gen_crystal_angle(&mut ctx.rng);
+            cs.theta = ctheta * RAD;
+          }
+          4 => {
+            cphi = gen_crystal_angle(&mut ctx.rng);
+            cs.phi = cphi * RAD;
+          }
+          5 => {
+            beam.set_phi(ctx.rng.range(0.0, TAU) * RAD);
+          }
+          6 => {
+            beam.set_polarization(gen_pol(&mut ctx.rng));
+          }
+          _ => ext_deg = ctx.rng.range(0.0, 80.0),
+        }
+        let det0 = format!(
+          "crystal={} ctheta={:e} cphi={:e} T={} lambda={:e} pol={} bphi={:e} ext_deg={:e} prev_theta={:e} scan_kind={}",
+          c, ctheta, cphi, t_c, *(beam.vacuum_wavelength() / M), pol_tok(beam.polarization()), *(beam.phi() / RAD), ext_deg, *(beam.theta_internal() / RAD), kind
+        );
+        let n = *cs.crystal.get_indices(beam.vacuum_wavelength(), cs.temperature);
+        snell_int_case(ctx, &beam, &cs, &n, ctheta, cphi, beam.polarization(), ext_deg * DEG);
+        if guard(|| { beam.set_theta_external(ext_deg * DEG * RAD, &cs); }).is_none() {
+          ctx.s("C13.readback", false, "snell/panic", &det0);
+          break;
+        }
+        readback_checks(ctx, &beam, &cs, ext_deg * DEG, &det0);
+      }
+    }
+  }
+
+  // ---------------------------------------------------------------- exact boundary angles of crystal and beam azimuth
+  {
+    let b_angles = [0.0, -0.0, FRAC_PI_2, -FRAC_PI_2, PI, -PI, TAU];
+    let n_c = if ctx.thorough { CRYSTALS.len() } else { 3 };
+    for c in CRYSTALS.iter().take(n_c) {
+      let lam = gen_lambda(&mut ctx.rng, c);
+      for th in b_angles.iter() {
+        for ph in b_angles.iter() {
+          let cs = setup(c, *th, *ph, 20.0);
+          for bphi in [0.0, FRAC_PI_2, PI, 3.0 * FRAC_PI_2, next_down(TAU)] {
+            let pol = gen_pol(&mut ctx.rng);
+            let ext_deg = *ctx.rng.pick(&[0.0, 80.0, 13.0, 1e-6, 45.0]);
+            snell_case(ctx, c, &cs, *th, *ph, 20.0, lam, pol, bphi, ext_deg, None);
+          }
         }
       }
     }
